@@ -466,6 +466,36 @@ func genPlugin(c *hmain.Ctx) {
 		c.Do("plugin", 1, hx.L(hx.I(count), hx.Z(interval), hx.L(rules...), hx.L(evs...)), true)
 		c.W.Count(fmt.Sprintf("plugin_rules_%d", len(rules)))
 	}
+	// long rule lists (25-60 rules, the implicit default rule is one more slot): each rule has its own limit and matches its own
+	// value of field a; the same throttle keys are seen under rules far apart in the list and under the default rule
+	for n := 0; n < 25*c.Scale; n++ {
+		count := r.Range(1, 3)
+		interval := hx.Pick(r, []int64{1_000_000_000, 60_000_000_000})
+		nr := r.Range(25, 60)
+		var rules []hx.Sx
+		for i := 0; i < nr; i++ {
+			rules = append(rules, hx.L(hx.I(r.Range(1, 6)), hx.I(r.Intn(2)), kvSx([][2]string{{"a", fmt.Sprintf("v%d", i)}})))
+		}
+		rules = append(rules, hx.L(hx.I(r.Range(1, 6)), hx.I(r.Intn(2)), hx.L()))
+		// the rule indices the events use: a few fixed ones and their neighbours at distance 26, 27, 32
+		base := r.Intn(nr)
+		idx := []int{base, (base + 26) % nr, (base + 27) % nr, (base + 32) % nr, 0, nr - 1, nr} // nr = no rule matches -> default
+		window := int64(count) * interval
+		now := window + int64(r.Intn(1<<30))
+		var evs []hx.Sx
+		for i := r.Range(20, 60); i > 0; i-- {
+			if r.Chance(1, 6) {
+				now += interval
+			}
+			f := [][2]string{{"k", hx.Pick(r, []string{"k1", "k2"})}}
+			if j := hx.Pick(r, idx); j < nr {
+				f = append(f, [2]string{"a", fmt.Sprintf("v%d", j)})
+			}
+			evs = append(evs, hx.L(hx.Z(now), hx.Z(now), hx.I(1+r.Intn(2)), kvSx(f)))
+		}
+		c.Do("plugin-many-rules", 1, hx.L(hx.I(count), hx.Z(interval), hx.L(rules...), hx.L(evs...)), true)
+		c.W.Count("plugin_many_rules")
+	}
 }
 
 func genShares(c *hmain.Ctx) {
@@ -512,6 +542,6 @@ func c16Gen(c *hmain.Ctx) {
 
 func main() {
 	hmain.Run(&hmain.Prop{ID: "C16",
-		Rule: "exhaustive: every op sequence of the tier's length over a 12-point (clock, event time[, size | value]) domain for count/size/distributed limiters; random histories (5-60 ops, clock jumps across 0..3 windows and backwards, past/future/out-of-order event times, limits 0..5, both kinds, 0..3 ratios); adversarial (0 buckets, unlimited, clock inside the first window / before the epoch, extreme event times); whole plugin with rules and keys; parseLimitDistribution. Non-trivial = inside the property's domain (buckets >= 1, limit >= 0); distinct = distinct (sub-model, case) text.",
+		Rule: "exhaustive: every op sequence of the tier's length over a 12-point (clock, event time[, size | value]) domain for count/size/distributed limiters; random histories (5-60 ops, clock jumps across 0..3 windows and backwards, past/future/out-of-order event times, limits 0..5, both kinds, 0..3 ratios); adversarial (0 buckets, unlimited, clock inside the first window / before the epoch, extreme event times); whole plugin with rules and keys (0-3 rules, and lists of 25-60 rules whose keys recur under rules 26, 27 and 32 positions apart); parseLimitDistribution. Non-trivial = inside the property's domain (buckets >= 1, limit >= 0); distinct = distinct (sub-model, case) text.",
 		Gen:  c16Gen, Exec: c16Exec})
 }
